@@ -70,7 +70,8 @@ NatOK(e) ==
 
 VARIABLE l
 EventOK(e) ==
-  CASE e.op = "fe" -> CanonFE(e.val) /\ FeOK(e.name, FB(e.val))
+  CASE e.op = "fresh" -> e.ok = TRUE      \* values handed to the caller are the caller's own (vfresh in the recorder)
+    [] e.op = "fe" -> CanonFE(e.val) /\ FeOK(e.name, FB(e.val))
     [] e.op = "pt" ->
          LET Q == PtOf(e) IN
          /\ ExtValid(Q)
